@@ -316,6 +316,15 @@ func genTree(r *Rng, o treeOpts) *GenTree {
 		for i := 0; i < nres; i++ {
 			ki := treeKinds[r.Intn(len(treeKinds))]
 			name := fmt.Sprintf("%s%d", strings.ToLower(ki.Kind[:3]), r.Intn(4))
+			// near-miss names: longer / shorter variants of other names
+			switch r.Intn(8) {
+			case 0:
+				name += "-x"
+			case 1:
+				name = "x-" + name
+			case 2:
+				name += "1"
+			}
 			id := ki.Kind + "/" + name
 			if usedIds[id] {
 				continue
@@ -361,13 +370,19 @@ func genTree(r *Rng, o treeOpts) *GenTree {
 			l.Kust["commonAnnotations"] = obj{r.Pick([]string{"note", "owner"}): advStringNoNL(r)}
 		}
 		if pick("labels", 30) {
-			e := obj{"pairs": obj{r.Pick([]string{"tier", "rel"}): r.Pick(labelValues)}}
-			if r.Bool() {
-				e["includeSelectors"] = true
-			} else if r.Bool() {
-				e["includeTemplates"] = true
+			es := []interface{}{}
+			keys := []string{"tier", "rel", "zone", "build"}
+			for i, n := 0, 1+r.Intn(3); i < n; i++ {
+				e := obj{"pairs": obj{keys[(i+r.Intn(2))%len(keys)]: r.Pick(labelValues)}}
+				switch r.Intn(3) {
+				case 0:
+					e["includeSelectors"] = true
+				case 1:
+					e["includeTemplates"] = true
+				}
+				es = append(es, e)
 			}
-			l.Kust["labels"] = []interface{}{e}
+			l.Kust["labels"] = es
 		}
 		if pick("images", 30) {
 			e := obj{"name": r.Pick([]string{"nginx", "app", "busybox", "registry:5000/app", "my.registry/app-1"})}
@@ -399,7 +414,50 @@ func genTree(r *Rng, o treeOpts) *GenTree {
 			p := obj{"apiVersion": gr.Obj["apiVersion"], "kind": gr.Obj["kind"],
 				"metadata": obj{"name": gr.Obj["metadata"].(obj)["name"], "annotations": obj{"patched": advStringNoNL(r)}}}
 			y, _ := syaml.Marshal(p)
-			l.Kust["patches"] = []interface{}{obj{"patch": string(y), "target": obj{"kind": gr.Obj["kind"], "name": gr.Obj["metadata"].(obj)["name"]}}}
+			tname := gr.Obj["metadata"].(obj)["name"].(string)
+			if r.Chance(40) {
+				// a regular-expression target: alternation / wildcard forms
+				other := t.Resources[r.Intn(len(t.Resources))].Obj["metadata"].(obj)["name"].(string)
+				first, last := tname, other
+				switch r.Intn(3) {
+				case 0:
+					tname = first + "|" + last
+				case 1:
+					first, last = other, tname
+					tname = first + "|" + last
+				default:
+					tname = tname[:len(tname)-1] + "."
+					first, last = "", ""
+				}
+				// near-miss resources of the same kind that an unanchored alternation would catch
+				if first != "" && r.Chance(70) {
+					var ki kindInfo
+					for _, k := range treeKinds {
+						if k.Kind == gr.Obj["kind"].(string) {
+							ki = k
+						}
+					}
+					docs := []string{}
+					for _, nm := range []string{first + "-x", "x-" + last} {
+						id := ki.Kind + "/" + nm
+						if usedIds[id] {
+							continue
+						}
+						usedIds[id] = true
+						tracer := fmt.Sprintf("t%d", tr)
+						tr++
+						ob := genResource(r, ki, nm, tracer)
+						yy, _ := syaml.Marshal(ob)
+						docs = append(docs, string(yy))
+						t.Resources = append(t.Resources, &GenRes{Tracer: tracer, Obj: ob, Layer: li})
+					}
+					if len(docs) > 0 {
+						l.Files["near.yaml"] = strings.Join(docs, "---\n")
+						l.Kust["resources"] = append(l.Kust["resources"].([]interface{}), "near.yaml")
+					}
+				}
+			}
+			l.Kust["patches"] = []interface{}{obj{"patch": string(y), "target": obj{"kind": gr.Obj["kind"], "name": tname}}}
 		}
 		if pick("generators", 30) {
 			lits := []interface{}{}
